@@ -160,6 +160,7 @@ type Gen struct {
 	trustedUsed map[string]bool
 	sinkRefs    map[string]bool      // identities of byte sinks that exist at entry (io.Writer parameters)
 	bindingParams bool // true while the parameters of the function under verification are being bound
+	loopExit    map[int][]string // per loop: pc of every edge leaving the loop
 	retReach    map[int][]string // per ensures clause: pc && antecedent at every return reached
 	cpReach     map[int][]string // per callpre clause: pc at every call it was checked at
 	clauseBound map[string]bool      // callpre/ghostset/observe clauses that matched at least one call
@@ -175,6 +176,7 @@ type Gen struct {
 	hsfSorts    map[string]string
 	entryHsf    map[string]string
 	globInit    map[string]Val
+	hashSize    map[string]int // hash object -> digest size, for objects made by a known constructor
 	globFacts   map[string]string
 	refRange    map[string][2]string
 	constFacts  map[string]string // opaque string constant id -> length/byte facts
